@@ -2,11 +2,13 @@ package main
 
 import (
 	"bytes"
+	"encoding/base64"
 	"fmt"
 	"runtime"
 	"strconv"
 	"strings"
 	"sync"
+	"sync/atomic"
 	"time"
 
 	"github.com/emersion/go-imap/v2"
@@ -105,25 +107,45 @@ type sfConn struct {
 	trace []string // "s<n>" = client wrote n bytes, "r<hex>" = bytes received after them
 	state string   // last quiescence result: idle | closed | timeout
 	all   []byte   // everything delivered
+	// budget >= 0: the client disconnects after this many more octets (cut point); spent is set
+	// once the budget has cut a write short
+	budget int
+	spent  bool
 }
 
 const sfWait = 20 * time.Second
+
+// sfTimeouts counts watchdog expiries; each is already a reportable observation, so after a few
+// of them the remaining cases stop waiting the full time (a broken server would otherwise turn a
+// one-minute run into hours).
+var sfTimeouts atomic.Int32
+
+func sfPatience() time.Duration {
+	if sfTimeouts.Load() >= 3 {
+		return 300 * time.Millisecond
+	}
+	return sfWait
+}
 
 func (env *sfEnv) dial() *sfConn {
 	c := env.ln.dial()
 	var s *recSession
 	select {
 	case s = <-env.newS:
-	case <-time.After(sfWait):
+	case <-time.After(sfPatience()):
+		sfTimeouts.Add(1)
 	}
-	sc := &sfConn{env: env, c: c, sess: s}
+	sc := &sfConn{env: env, c: c, sess: s, budget: -1}
 	sc.settle() // greeting
 	return sc
 }
 
 // settle waits until the server has consumed everything and collects what it wrote.
 func (sc *sfConn) settle() []byte {
-	sc.state = sc.c.awaitPeerIdle(sfWait)
+	sc.state = sc.c.awaitPeerIdle(sfPatience())
+	if sc.state == "timeout" {
+		sfTimeouts.Add(1)
+	}
 	data, _ := sc.c.drain()
 	if len(data) > 0 {
 		sc.trace = append(sc.trace, "r"+hx(data))
@@ -132,6 +154,16 @@ func (sc *sfConn) settle() []byte {
 }
 
 func (sc *sfConn) write(b []byte) {
+	if sc.spent {
+		return
+	}
+	if sc.budget >= 0 {
+		if len(b) >= sc.budget {
+			b = b[:sc.budget]
+			sc.spent = true
+		}
+		sc.budget -= len(b)
+	}
 	if len(b) == 0 {
 		return
 	}
@@ -158,12 +190,13 @@ func (sc *sfConn) finish() string {
 
 // awaitDrained polls until the server tracks no connection any more.
 func (env *sfEnv) awaitDrained() bool {
-	deadline := time.Now().Add(sfWait)
+	deadline := time.Now().Add(sfPatience())
 	for d := 50 * time.Microsecond; ; d *= 2 {
 		if env.srv.VerifNumConns() == 0 {
 			return true
 		}
 		if time.Now().After(deadline) {
+			sfTimeouts.Add(1)
 			return false
 		}
 		if d > 20*time.Millisecond {
@@ -263,7 +296,7 @@ func (sc *sfConn) play(cmds []sfCmd, pipeline bool) {
 				}
 			default:
 				out := flush()
-				if sc.state != "idle" {
+				if sc.state != "idle" || sc.spent {
 					return
 				}
 				cont, tagged := sfBatch(out, cmd.tag)
@@ -283,7 +316,7 @@ func (sc *sfConn) play(cmds []sfCmd, pipeline bool) {
 		}
 		if !pipeline {
 			flush()
-			if sc.state != "idle" {
+			if sc.state != "idle" || sc.spent {
 				return
 			}
 		}
@@ -385,6 +418,54 @@ func sfLitHeader(line []byte) (n int64, nonSync, ok bool) {
 	return v, nonSync, true
 }
 
+// sfObs is what one connection showed.
+type sfObs struct {
+	delivered []byte
+	trace     string // s<n>;r<hex>;...
+	end       string // c | w | t
+	calls     string
+	closes    int
+	panics    int
+	maxArg    int
+	drained   bool // the server let go of the connection after the client closed
+}
+
+func (sc *sfConn) observe() sfObs {
+	end := sc.finish()
+	drained := sc.env.awaitDrained()
+	calls, closes, maxArg := sfCalls(sc.sess)
+	o := sfObs{delivered: sc.all, trace: "-", end: end, calls: calls, closes: closes, maxArg: maxArg, drained: drained,
+		panics: sfPanicLogs(sc.env.takeLogs())}
+	if len(sc.trace) > 0 {
+		o.trace = strings.Join(sc.trace, ";")
+	}
+	return o
+}
+
+// sfRun plays cmds faithfully on a fresh connection of env (which must not be shared while the
+// case runs: the server's log is attributed to it).
+func sfRun(env *sfEnv, cmds []sfCmd, pipeline bool) sfObs {
+	sc := env.dial()
+	sc.play(cmds, pipeline)
+	return sc.observe()
+}
+
+// sfRunCut plays cmds faithfully, but the client disconnects after k octets.
+func sfRunCut(env *sfEnv, cmds []sfCmd, pipeline bool, k int) sfObs {
+	sc := env.dial()
+	sc.budget = k
+	sc.play(cmds, pipeline)
+	return sc.observe()
+}
+
+// sfRunRaw writes the octets in one piece, waits for the server to settle, and closes.
+func sfRunRaw(env *sfEnv, data []byte) sfObs {
+	sc := env.dial()
+	sc.write(data)
+	sc.settle()
+	return sc.observe()
+}
+
 // calls renders the stub's call log: Name:args;... without Poll and Close (Close is counted).
 func sfCalls(s *recSession) (calls string, closes int, maxArg int) {
 	if s == nil {
@@ -448,4 +529,415 @@ func sfPanicLogs(logs []string) int {
 		}
 	}
 	return n
+}
+
+// ---- script encoding (so that a case replays from its own line) ------------------------------
+
+// cmd = tag ":" seg { "," seg } ; seg = kind short "." hex(text) "." hex(payload) ; cmds joined by "/"
+func sfEncode(cmds []sfCmd) string {
+	var cs []string
+	for _, c := range cmds {
+		var ss []string
+		for _, s := range c.segs {
+			k := s.kind
+			if k == 0 {
+				k = 'e'
+			}
+			ss = append(ss, fmt.Sprintf("%c%s.%s.%s", k, b01(s.short), hx(s.text), hx(s.payload)))
+		}
+		cs = append(cs, hx([]byte(c.tag))+":"+strings.Join(ss, ","))
+	}
+	if len(cs) == 0 {
+		return "-"
+	}
+	return strings.Join(cs, "/")
+}
+
+func sfDecode(s string) []sfCmd {
+	if s == "-" {
+		return nil
+	}
+	var cmds []sfCmd
+	for _, c := range strings.Split(s, "/") {
+		p := strings.SplitN(c, ":", 2)
+		cmd := sfCmd{tag: string(unhx(p[0]))}
+		for _, sg := range strings.Split(p[1], ",") {
+			f := strings.Split(sg[2:], ".")
+			k := sg[0]
+			if k == 'e' {
+				k = 0
+			}
+			cmd.segs = append(cmd.segs, sfSeg{kind: k, short: sg[1] == '1', text: unhx(f[0]), payload: unhx(f[1])})
+		}
+		cmds = append(cmds, cmd)
+	}
+	return cmds
+}
+
+// ---- generator ---------------------------------------------------------------------------------
+
+var sfSizes = []int64{0, 1, 4095, 4096, 4097, 5000, 100 << 20, 100<<20 + 1}
+
+type sfGen struct {
+	r     *rng
+	k     int // marker counter: every value and every tag of a case is unique
+	cnt   []string
+	big   int // payloads over 1 KiB so far in this case
+	wild  bool
+	state int // 0 not authenticated, 1 authenticated, 2 selected (what a conforming server would be in)
+}
+
+func (g *sfGen) count(s string) { g.cnt = append(g.cnt, s) }
+
+func (g *sfGen) mark(prefix string) string {
+	g.k++
+	return fmt.Sprintf("%s%d", prefix, g.k)
+}
+
+// payload builds n octets of literal content: command-like text carrying fresh markers, then
+// CRLF-rich noise. clean: printable, no CR/LF (acceptable as a mailbox name).
+func (g *sfGen) payload(n int, clean bool) []byte {
+	if n == 0 {
+		return nil
+	}
+	var b []byte
+	if clean {
+		b = []byte(g.mark("zm"))
+		for len(b) < n {
+			b = append(b, "abcdefghij-klmnop.qrstuv_wxyz"[len(b)%29])
+		}
+		return b[:n]
+	}
+	k := g.mark("")
+	cmdlike := []string{
+		"\r\nz" + k + " LOGIN zu" + k + " zp" + k + "\r\n",
+		"x" + k + " DELETE zb" + k + "\r\n",
+		"w" + k + " SELECT zs" + k + "\r\nv" + k + " NOOP\r\n",
+	}
+	noise := []string{"\r\n", "\n", "{3+}\r\n", "{2}\r\n", "\" ", ") (", "\\", "a b\r\n", "+ ok\r\n", "DONE\r\n", "* \r\n"}
+	switch g.r.intn(3) {
+	case 0:
+		b = append(b, cmdlike[0]...)
+	case 1:
+		b = append(b, cmdlike[1]...)
+		b = append(b, cmdlike[0]...)
+	default:
+		b = append(b, cmdlike[2]...)
+	}
+	for len(b) < n {
+		if g.r.chance(1, 6) {
+			b = append(b, pick(g.r, cmdlike)...)
+		} else {
+			b = append(b, pick(g.r, noise)...)
+		}
+	}
+	b = b[:n]
+	return b
+}
+
+// one string argument, rendered in one of the four forms; returns the text to put on the command
+// line and, for literals, the seg break. val is the value for atom/quoted forms.
+type sfPiece struct {
+	text    string // command text up to and including a literal header + CRLF, or the atom/quoted
+	kind    byte   // 0 none, 'n', 's'
+	payload []byte
+	short   bool
+}
+
+func (g *sfGen) arg(val string, mailbox bool) sfPiece {
+	form := g.r.intn(10)
+	switch {
+	case form < 2:
+		g.count("arg:atom")
+		return sfPiece{text: val}
+	case form < 4:
+		g.count("arg:quoted")
+		return sfPiece{text: "\"" + val + "\""}
+	}
+	nonSync := form >= 7
+	// size: small ones often, each boundary regularly, at most two large payloads per case
+	var size int64
+	switch s := g.r.intn(12); {
+	case s < 3:
+		size = int64(2 + g.r.intn(60))
+	case s < 4:
+		size = int64(60 + g.r.intn(400))
+	default:
+		size = sfSizes[g.r.intn(len(sfSizes))]
+	}
+	if size > 1024 && size <= 8192 {
+		if g.big >= 2 {
+			size = int64(1 + g.r.intn(40))
+		} else {
+			g.big++
+		}
+	}
+	p := sfPiece{kind: 's'}
+	hdr := fmt.Sprintf("{%d}", size)
+	if nonSync {
+		p.kind = 'n'
+		hdr = fmt.Sprintf("{%d+}", size)
+	}
+	p.text = hdr + "\r\n"
+	if size > 8192 {
+		p.short = true
+		if g.r.chance(1, 2) {
+			p.payload = g.payload(200, false) // the beginning of a payload that never completes
+		}
+	} else {
+		p.payload = g.payload(int(size), mailbox && g.r.chance(1, 2))
+	}
+	g.count(fmt.Sprintf("arg:lit%c:%d", p.kind, size))
+	return p
+}
+
+// build assembles a command from fixed words and pieces.
+type sfBuilder struct {
+	cmd sfCmd
+	cur []byte
+}
+
+func (b *sfBuilder) word(s string) { b.cur = append(b.cur, s...) }
+func (b *sfBuilder) piece(p sfPiece) {
+	b.cur = append(b.cur, p.text...)
+	if p.kind != 0 {
+		b.cmd.segs = append(b.cmd.segs, sfSeg{text: b.cur, kind: p.kind, payload: p.payload, short: p.short})
+		b.cur = nil
+	}
+}
+func (b *sfBuilder) end() sfCmd {
+	b.cur = append(b.cur, "\r\n"...)
+	b.cmd.segs = append(b.cmd.segs, sfSeg{text: b.cur})
+	return b.cmd
+}
+
+func plainB64(u, p string) string {
+	return base64.StdEncoding.EncodeToString([]byte("\x00" + u + "\x00" + p))
+}
+
+func (g *sfGen) command() sfCmd {
+	tag := g.mark("t")
+	b := &sfBuilder{cmd: sfCmd{tag: tag}}
+	b.word(tag + " ")
+	mb := func() sfPiece {
+		v := g.mark("mb")
+		if g.r.chance(1, 8) {
+			v = pick(g.r, []string{"INBOX", "inbox", "InBox"})
+		}
+		return g.arg(v, true)
+	}
+	// a spurious trailing argument on a command that takes none / after the last one
+	extra := func() {
+		if g.r.chance(1, 5) {
+			b.word(" ")
+			b.piece(g.arg(g.mark("e"), false))
+			g.count("extra-arg")
+		}
+	}
+	pickName := func(names ...string) string {
+		n := pick(g.r, names)
+		if g.r.chance(1, 6) {
+			n = strings.ToLower(n)
+		}
+		g.count("cmd:" + strings.ToUpper(n))
+		return n
+	}
+	switch c := g.r.intn(100); {
+	case c < 14:
+		b.word(pickName("LOGIN") + " ")
+		b.piece(g.arg(g.mark("u"), false))
+		b.word(" ")
+		b.piece(g.arg(g.mark("p"), false))
+		extra()
+		if g.state == 0 {
+			g.state = 1
+		}
+	case c < 22:
+		b.word(pickName("SELECT", "EXAMINE") + " ")
+		b.piece(mb())
+		extra()
+		if g.state >= 1 {
+			g.state = 2
+		}
+	case c < 36:
+		b.word(pickName("CREATE", "DELETE", "SUBSCRIBE", "UNSUBSCRIBE") + " ")
+		b.piece(mb())
+		extra()
+	case c < 42:
+		b.word(pickName("RENAME") + " ")
+		b.piece(mb())
+		b.word(" ")
+		b.piece(mb())
+		extra()
+	case c < 56:
+		b.word(pickName("APPEND") + " ")
+		b.piece(mb())
+		b.word(" ")
+		if g.r.chance(1, 3) {
+			b.word(pick(g.r, []string{"(\\Seen)", "(\\Seen \\Deleted)", "()", "(custom)"}) + " ")
+		}
+		// the message is always a literal
+		var p sfPiece
+		for p.kind == 0 {
+			p = g.arg("x", false)
+		}
+		b.piece(p)
+		if g.r.chance(1, 12) {
+			b.word(" trailing")
+			g.count("append-trailing")
+		}
+	case c < 66:
+		b.word(pickName("NOOP", "CAPABILITY", "CHECK", "CLOSE", "UNSELECT", "EXPUNGE", "NAMESPACE", "STARTTLS", "FOO", "UID FOO"))
+		extra()
+	case c < 69:
+		b.word(pickName("ENABLE") + " " + pick(g.r, []string{"IMAP4rev2", "UTF8=ACCEPT", "X-A X-B"}))
+		extra()
+	case c < 71:
+		b.word(pickName("LOGOUT", "UNAUTHENTICATE"))
+	case c < 80:
+		b.word(pickName("AUTHENTICATE") + " " + pick(g.r, []string{"PLAIN", "plain", "PLAIN", "LOGIN"}))
+		u, p := g.mark("au"), g.mark("ap")
+		var line string
+		switch v := g.r.intn(10); {
+		case v < 3:
+			line = plainB64(u, p)
+		case v < 4:
+			line = "*"
+		case v < 5:
+			line = "b" + g.mark("") + " DELETE " + g.mark("sm")
+		case v < 7:
+			n := pick(g.r, []int{4000, 4093, 4094, 4095, 4096, 4097, 8191, 8192, 9000})
+			line = strings.Repeat("A", n) + "q" + g.mark("") + " DELETE " + g.mark("sm")
+			g.count(fmt.Sprintf("sasl-long:%d", n))
+		case v < 8:
+			line = ""
+		default:
+			line = plainB64("", "")
+		}
+		if g.r.chance(1, 4) {
+			// initial response on the command line
+			if g.r.chance(1, 3) {
+				b.word(" ")
+				b.piece(g.arg(plainB64(u, p), false))
+				g.count("sasl-ir-as-string")
+			} else {
+				b.word(" " + pick(g.r, []string{plainB64(u, p), "=", "!!", line}))
+			}
+			return b.end()
+		}
+		b.cur = append(b.cur, "\r\n"...)
+		b.cmd.segs = append(b.cmd.segs, sfSeg{text: b.cur, kind: 'a', payload: []byte(line + "\r\n")}, sfSeg{})
+		if g.state == 0 {
+			g.state = 1
+		}
+		return b.cmd
+	case c < 88:
+		b.word(pickName("IDLE"))
+		var line string
+		switch v := g.r.intn(8); {
+		case v < 4:
+			line = "DONE"
+		case v < 5:
+			line = "done"
+		case v < 6:
+			line = "b" + g.mark("") + " DELETE " + g.mark("sm")
+		default:
+			n := pick(g.r, []int{4093, 4094, 4095, 4096, 4097, 9000})
+			line = strings.Repeat("D", n) + "q" + g.mark("") + " DELETE " + g.mark("sm")
+			g.count(fmt.Sprintf("idle-long:%d", n))
+		}
+		b.cur = append(b.cur, "\r\n"...)
+		b.cmd.segs = append(b.cmd.segs, sfSeg{text: b.cur, kind: 'i', payload: []byte(line + "\r\n")}, sfSeg{})
+		return b.cmd
+	case c < 93:
+		b.word(pickName("SEARCH", "UID SEARCH") + " " + pick(g.r, []string{"ALL", "NOT SEEN", "OR SEEN (DELETED NOT NEW)", "(ALL) UNSEEN", "NOT NOT NOT ALL", "((ALL))", "OR ALL", "NOT"}))
+		extra()
+	default:
+		// commands outside the model's signature table, with string arguments in every form
+		switch g.r.intn(6) {
+		case 0:
+			b.word(pickName("LIST") + " ")
+			b.piece(g.arg(g.mark("ref"), true))
+			b.word(" ")
+			b.piece(g.arg(g.mark("pat"), true))
+		case 1:
+			b.word(pickName("STATUS") + " ")
+			b.piece(mb())
+			b.word(" (MESSAGES UNSEEN)")
+		case 2:
+			b.word(pickName("SEARCH") + " SUBJECT ")
+			b.piece(g.arg(g.mark("subj"), false))
+			b.word(" TEXT ")
+			b.piece(g.arg(g.mark("txt"), false))
+		case 3:
+			b.word(pickName("COPY", "MOVE", "UID COPY") + " 1:3 ")
+			b.piece(mb())
+		case 4:
+			b.word(pickName("FETCH") + " 1 (BODY[HEADER.FIELDS (")
+			b.piece(g.arg(g.mark("hf"), false))
+			b.word(")])")
+		default:
+			b.word(pickName("STORE") + " 1 +FLAGS (\\Seen)")
+			extra()
+		}
+	}
+	return b.end()
+}
+
+func (g *sfGen) stream() []sfCmd {
+	var cmds []sfCmd
+	// reach a state first, most of the time
+	mk := func(text string) sfCmd {
+		tag := g.mark("t")
+		return sfCmd{tag: tag, segs: []sfSeg{{text: []byte(tag + " " + text + "\r\n")}}}
+	}
+	switch g.r.intn(4) {
+	case 1:
+		cmds = append(cmds, mk("LOGIN "+g.mark("u")+" "+g.mark("p")))
+		g.state = 1
+	case 2, 3:
+		cmds = append(cmds, mk("LOGIN "+g.mark("u")+" "+g.mark("p")), mk("SELECT "+g.mark("mb")))
+		g.state = 2
+	}
+	n := 1 + g.r.intn(6)
+	for i := 0; i < n; i++ {
+		cmds = append(cmds, g.command())
+	}
+	return cmds
+}
+
+// streams outside the oracle's domain: the RFC lexer and the library's liberal lexer may
+// legitimately frame them differently. Model comparison, output well-formedness and "no panic"
+// still apply.
+func (g *sfGen) wildStream() []sfCmd {
+	raw := func(s string) sfCmd {
+		tag := g.mark("t")
+		return sfCmd{tag: tag, segs: []sfSeg{{text: []byte(tag + " " + s)}}}
+	}
+	var cmds []sfCmd
+	if g.r.chance(1, 2) {
+		cmds = append(cmds, raw("LOGIN a b\r\n"))
+	}
+	for i, n := 0, 1+g.r.intn(3); i < n; i++ {
+		switch g.r.intn(6) {
+		case 0:
+			cmds = append(cmds, raw("LOGIN \"x\r\ny\" p\r\n"))
+			g.count("wild:quoted-crlf")
+		case 1:
+			cmds = append(cmds, raw("NOOP\n"))
+			g.count("wild:lone-lf")
+		case 2:
+			cmds = append(cmds, raw("LOGIN {3} \r\nabc p\r\n"))
+			g.count("wild:sp-before-crlf")
+		case 3:
+			cmds = append(cmds, raw("DELETE \"abc {3}\r\nxyz\r\n"))
+			g.count("wild:open-quote")
+		case 4:
+			cmds = append(cmds, raw("NOOP\rX\r\n"))
+			g.count("wild:lone-cr")
+		default:
+			cmds = append(cmds, raw("NOOP\r\n"))
+		}
+	}
+	return cmds
 }
